@@ -33,13 +33,29 @@ impl Program {
             let choice = rng.below(100);
             // complete class-like units defined so far (non-template)
             let classes: Vec<usize> = (0..units.len()).filter(|&i| units[i].kind == "class" && !units[i].is_template).collect();
-            let templates: Vec<usize> = (0..units.len()).filter(|&i| units[i].is_template).collect();
+            let templates: Vec<usize> = (0..units.len()).filter(|&i| units[i].is_template && units[i].kind == "class").collect();
+            let inst_templates: Vec<usize> = (0..units.len()).filter(|&i| units[i].is_template).collect();
             let anyty: Vec<usize> = (0..units.len()).filter(|&i| !units[i].is_template).collect();
             if choice < 10 && !anyty.is_empty() {
                 // typedef chain
                 let t = *rng.pick(&anyty);
                 let tn = units[t].name.clone();
                 units.push(Unit { name: name.clone(), text: format!("typedef {tn} {name};"), needs: vec![t], is_template: false, opaque: false, kind: "typedef" });
+                continue;
+            }
+            if choice < 14 && !templates.is_empty() {
+                // alias template over an earlier class template, and a class template deriving from one
+                let t = *rng.pick(&templates);
+                let tn = units[t].name.clone();
+                let two = units[t].text.contains("typename U");
+                if rng.chance(1, 2) {
+                    let args = if two { "T, int" } else { "T" };
+                    units.push(Unit { name: name.clone(), text: format!("template<typename T> using {name} = {tn}<{args}>;"), needs: vec![t], is_template: true, opaque: false, kind: "alias_template" });
+                } else {
+                    let args = if two { "T, T" } else { "T" };
+                    let extra = match rng.below(3) { 0 => "int own;", 1 => "T* own;", _ => "" };
+                    units.push(Unit { name: name.clone(), text: format!("template<typename T> struct {name} : public {tn}<{args}> {{ {extra} }};"), needs: vec![t], is_template: true, opaque: false, kind: "class" });
+                }
                 continue;
             }
             if choice < 22 {
@@ -116,11 +132,11 @@ impl Program {
                     // pointer to any class, possibly a later one (forward declared)
                     let t = rng.below(n_units as u64);
                     body.push_str(&format!("struct P{t}* {fname}; "));
-                } else if c < 88 && !templates.is_empty() {
-                    let t = *rng.pick(&templates);
+                } else if c < 88 && !inst_templates.is_empty() {
+                    let t = *rng.pick(&inst_templates);
                     needs.push(t);
                     let arg = if !anyty.is_empty() && rng.chance(1, 2) { let a = *rng.pick(&anyty); needs.push(a); units[a].name.clone() } else { rng.pick(SCALARS).to_string() };
-                    let two = units[t].text.contains("typename U");
+                    let two = units[t].text.contains("typename U") && units[t].kind == "class" && !units[t].text.contains(" : public ");
                     if two { body.push_str(&format!("{}<{arg}, int> {fname}; ", units[t].name)); } else { body.push_str(&format!("{}<{arg}> {fname}; ", units[t].name)); }
                 } else if c < 94 {
                     let nargs = *rng.pick(&[0usize, 2, 12, 13]);
@@ -193,6 +209,7 @@ pub fn random_flags(rng: &mut Rng, prog: &Program) -> Vec<String> {
     }
     if rng.chance(1, 8) { f.push("--no-derive-copy".into()); }
     if rng.chance(1, 8) { f.push("--no-derive-debug".into()); }
+    if rng.chance(1, 6) { f.push("--disable-untagged-union".into()); }
     let names = prog.class_names();
     if !names.is_empty() {
         if rng.chance(1, 4) { f.push("--blocklist-type".into()); f.push(rng.pick(&names).clone()); }
